@@ -61,6 +61,7 @@ type c14Adv struct {
 	Wait  int    `json:"wait,omitempty"`  // clock units (T == -1)
 	HH    int    `json:"hh,omitempty"`    // T == -2: health verdict for host HH (worker cases: the host the worker is checking)
 	HB    bool   `json:"hb,omitempty"`    // T == -2: unhealthy?
+	X     bool   `json:"x,omitempty"`     // the client of request T disconnects now (its context is cancelled); the request does not move
 }
 
 type c14In struct {
@@ -99,6 +100,7 @@ type c14Thread struct {
 	host   int
 	code   int
 	cancel context.CancelFunc
+	gone   bool // the client has disconnected (X step): the transport answers context.Canceled
 }
 
 type c14HC struct {
@@ -482,7 +484,7 @@ func c14Sched(in *c14In, scale int) (Result, int) {
 	fwdHost := map[int]int{}
 	nowUnits := 0
 	sane, marginOK, booksOK, overshoot, overlap := true, true, true, false, false
-	maxActive, nFail, nRefused, nHealth, nLate, nMidFlip := 0, 0, 0, 0, 0, 0
+	maxActive, nFail, nRefused, nHealth, nLate, nMidFlip, nGone, nGoneEarly := 0, 0, 0, 0, 0, 0, 0, 0
 	lastSnap := sn0
 
 	record := func(hs, ev string, tBegin time.Time) {
@@ -613,6 +615,25 @@ func c14Sched(in *c14In, scale int) (Result, int) {
 			}
 			return "EvNone"
 		}
+		if a.X {
+			// the client goes away while the request is blocked wherever it is: before Select (also: back in the
+			// retry loop after keepRetrying), at the entry of Policy.Select, in the window, inside the transport
+			if th.point == "done" || th.point == "start" {
+				return
+			}
+			th.cancel()
+			th.gone = true
+			nGone++
+			if th.point != "rt" && th.point != "body" {
+				nGoneEarly++
+			}
+			pt := th.point
+			if pt == "body" {
+				pt = "rt"
+			}
+			record(cApp("HCancel", cNat(th.id)), evTerm(c14Event{point: pt, host: th.host}), time.Now())
+			return
+		}
 		switch th.point {
 		case "pre":
 			for _, o := range run.threads {
@@ -656,7 +677,7 @@ func c14Sched(in *c14In, scale int) (Result, int) {
 			}
 			record(cApp("HBegin", cNat(th.id), cBool(a.Again)), evTerm(ev), time.Now())
 		case "rt":
-			if a.O == "h" {
+			if a.O == "h" && !th.gone {
 				th.gate <- c14Cmd{o: "h"}
 				waitEvent(th)
 				record(cApp("HStream", cNat(th.id)), "EvNone", time.Now())
@@ -667,6 +688,9 @@ func c14Sched(in *c14In, scale int) (Result, int) {
 			o := a.O
 			if th.point == "body" && o != "p" || o == "h" {
 				o = "s"
+			}
+			if th.point == "rt" && th.gone {
+				o = "c" // what http.Transport answers when the request's context is (already) cancelled
 			}
 			run.again = a.Again
 			t0 := time.Now()
@@ -735,6 +759,9 @@ func c14Sched(in *c14In, scale int) (Result, int) {
 	if in.Gate || in.Worker {
 		sig = "health:" + in.Policy
 	}
+	if in.Fam == "gone" {
+		sig = "gone:" + in.Policy
+	}
 	if in.FT > 0 {
 		sig += ":timed"
 	}
@@ -750,10 +777,16 @@ func c14Sched(in *c14In, scale int) (Result, int) {
 	res := Result{Term: term,
 		Obs: map[string]interface{}{"steps": execd, "final": lastSnap, "overshoot": overshoot, "window_overlap": overlap,
 			"block": text, "clock_unit_ms": int64(unit / time.Millisecond), "refused_acquires": nRefused,
-			"failures_while_down": nLate, "verdicts_inside_select": nMidFlip},
-		Sig: sig, Nontrivial: maxActive >= 2 || nFail > 0 || nHealth > 0,
+			"failures_while_down": nLate, "verdicts_inside_select": nMidFlip, "clients_gone": nGone, "clients_gone_before_forward": nGoneEarly},
+		Sig: sig, Nontrivial: maxActive >= 2 || nFail > 0 || nHealth > 0 || nGone > 0,
 		Class: fmt.Sprintf("sched:hosts%d:mc%d:ft-%s:overlap=%v", in.Hosts, in.MC, ftc, overlap)}
-	if in.Fam != "" {
+	if in.Fam == "gone" {
+		gate := "plain"
+		if in.Gate {
+			gate = "gated"
+		}
+		res.Class = fmt.Sprintf("gone:%s:%s:mc%d:before-forward=%v:refused=%v", in.Policy, gate, in.MC, nGoneEarly > 0, nRefused > 0)
+	} else if in.Fam != "" {
 		// the targeted families: what was actually driven (acquireConn refused, a failure arriving while the host
 		// was already down, a health verdict landing inside a running Select)
 		res.Class = fmt.Sprintf("%s:%s:refused=%v:late-failure=%v:verdict-in-select=%v", in.Fam, in.Policy, nRefused > 0, nLate > 0, nMidFlip > 0)
@@ -1002,6 +1035,21 @@ func c14Stress2(in *c14In) Result {
 						atomic.AddInt64(&answered, 1)
 					}()
 					req := httptest.NewRequest("GET", fmt.Sprintf("http://example.test/x%d", k%13), nil)
+					// some clients are gone before their request enters the proxy, some leave at a random moment
+					switch (k / 3) % 9 {
+					case 0:
+						ctx, cancel := context.WithCancel(context.Background())
+						cancel()
+						req = req.WithContext(ctx)
+					case 1:
+						ctx, cancel := context.WithCancel(context.Background())
+						defer cancel()
+						req = req.WithContext(ctx)
+						go func(d time.Duration) {
+							time.Sleep(d)
+							cancel()
+						}(time.Duration(k%173) * time.Microsecond)
+					}
 					req.Header.Set("X-C14-Key", fmt.Sprint(k))
 					req.Header.Set("X-C14-Hash", fmt.Sprint(k%11))
 					req.RemoteAddr = fmt.Sprintf("192.0.2.%d:4711", k%17)
@@ -1239,10 +1287,127 @@ func c14Live(in *c14In) Result {
 		Key: fmt.Sprintf("live:%s:%d", mode, in.Seed)}
 }
 
+// c14NilCount counts the Selects that answered nil (a request waiting in the retry loop makes them).
+type c14NilCount struct {
+	proxy.Upstream
+	nils int64
+}
+
+func (u *c14NilCount) Select(r *http.Request) *proxy.UpstreamHost {
+	h := u.Upstream.Select(r)
+	if h == nil && r.Header.Get("X-C14-Who") == "B" {
+		atomic.AddInt64(&u.nils, 1)
+	}
+	return h
+}
+
+// c14LiveGone: the real retry loop (try_duration / try_interval as parsed, real clock) and the real
+// http.Transport.  Request A holds the only slot of the backend (max_conns 1); request B finds it full and
+// waits in keepRetrying's loop; B's client goes away while it waits; A is answered; B's next attempt
+// begins with its context already cancelled.  Observed: B's status, Conns while A is held, Conns when
+// everything has returned, and the status of a request C sent afterwards to the idle backend.
+func c14LiveGone(in *c14In) Result {
+	entered := make(chan string, 4)
+	release := make(chan struct{})
+	backend := httptest.NewServer(http.HandlerFunc(func(w http.ResponseWriter, r *http.Request) {
+		who := r.Header.Get("X-C14-Who")
+		entered <- who
+		if who == "A" {
+			<-release
+		}
+		w.WriteHeader(200)
+		io.WriteString(w, "ok")
+	}))
+	defer backend.Close()
+	var once sync.Once
+	unblock := func() { once.Do(func() { close(release) }) }
+	defer unblock()
+	pol := in.Policy
+	if pol == "" {
+		pol = "first"
+	}
+	if pol == "header" {
+		pol = "header X-C14-Hash"
+	}
+	text := fmt.Sprintf("proxy / %s {\n policy %s\n max_conns 1\n max_fails 1\n fail_timeout 1h\n try_duration 4s\n try_interval 2ms\n}\n", backend.URL, pol)
+	ups, err := proxy.NewStaticUpstreams(casketfile.NewDispenser("Testfile", strings.NewReader(text)), "")
+	if err != nil || len(ups) != 1 {
+		r := c14Skip(fmt.Sprint("setup error ", err), "live:setup-error")
+		r.Direct = fmt.Sprint("proxy block rejected: ", err)
+		return r
+	}
+	defer ups[0].Stop()
+	h := hostsOf(ups[0])[0]
+	cnt := &c14NilCount{Upstream: ups[0]}
+	p := proxy.Proxy{Next: handlerFunc(func(w http.ResponseWriter, r *http.Request) (int, error) { return 404, nil }), Upstreams: []proxy.Upstream{cnt}}
+	start := func(who string, ctx context.Context) chan int {
+		req := httptest.NewRequest("GET", "http://example.test/x", nil).WithContext(ctx)
+		req.RemoteAddr = "192.0.2.7:4711"
+		req.Header.Set("X-C14-Who", who)
+		req.Header.Set("X-C14-Hash", "k")
+		done := make(chan int, 1)
+		go func() {
+			code := -1
+			defer func() {
+				recover()
+				done <- code
+			}()
+			code, _ = p.ServeHTTP(httptest.NewRecorder(), req)
+		}()
+		return done
+	}
+	direct := ""
+	await := func(c chan int, what string) int {
+		select {
+		case v := <-c:
+			return v
+		case <-time.After(8 * time.Second):
+			if direct == "" {
+				direct = what + " did not return within 8s"
+			}
+			return -2
+		}
+	}
+	doneA := start("A", context.Background())
+	select {
+	case <-entered:
+	case <-time.After(5 * time.Second):
+		direct = "request A never reached the backend"
+	}
+	during := atomic.LoadInt64(&h.Conns)
+	ctxB, cancelB := context.WithCancel(context.Background())
+	defer cancelB()
+	doneB := start("B", ctxB)
+	waitNils := func(n int64) {
+		for deadline := time.Now().Add(3 * time.Second); atomic.LoadInt64(&cnt.nils) < n && time.Now().Before(deadline); {
+			time.Sleep(time.Millisecond)
+		}
+	}
+	waitNils(1 + int64(in.Seed%3)) // B has been refused and sleeps in keepRetrying
+	nb := atomic.LoadInt64(&cnt.nils)
+	cancelB()
+	waitNils(nb + 1 + int64(in.Seed%2)) // still in the loop with its client gone
+	unblock()
+	codeA := await(doneA, "request A")
+	codeB := await(doneB, "request B (client gone while waiting for a slot)")
+	after := atomic.LoadInt64(&h.Conns)
+	codeC := await(start("C", context.Background()), "request C")
+	if direct == "" && codeA != 0 {
+		direct = fmt.Sprintf("request A was answered %d", codeA)
+	}
+	return Result{Term: cApp("CLiveGone", cZ(int64(codeB)), cZ(during), cZ(after), cZ(int64(codeC))),
+		Obs: map[string]interface{}{"status_gone_waiter": codeB, "conns_while_held": during, "conns_at_quiescence": after,
+			"status_next_request": codeC, "nil_selects_of_waiter": atomic.LoadInt64(&cnt.nils), "block": text},
+		Direct: direct, Sig: "live:gone-while-waiting", Nontrivial: true, Class: "live:gone-while-waiting:" + in.Policy,
+		Key: fmt.Sprintf("livegone:%s:%d", in.Policy, in.Seed)}
+}
+
 func c14RunOne(in *c14In) Result {
 	switch in.Kind {
 	case "live":
 		return c14Live(in)
+	case "livegone":
+		return c14LiveGone(in)
 	case "sched":
 		var res Result
 		status := 0
@@ -1552,6 +1717,99 @@ func c14Gen(r *Rand, tier string) []interface{} {
 		}
 		out = append(out, in)
 	}
+	// 10. the client goes away at EVERY point of a request's life, for every policy, with max_conns set:
+	// (a) a request waits for a slot (every slot of the pool is held, Select answers nil or acquireConn refuses,
+	// keepRetrying says again), its client leaves — before its first Select, while it waits in the retry loop, at
+	// the entry of Policy.Select (gated), in the window between Select and acquireConn, or inside the transport —,
+	// a holder is answered, the waiter's next attempt begins with the context already cancelled; afterwards a
+	// prober must find the slot free.  (b) random schedules with disconnects at random moments.
+	xs := func(t int) c14Adv { return c14Adv{T: t, X: true} }
+	goneVariants := 5
+	nGoneRandom := 420
+	if tier == "thorough" {
+		nGoneRandom = 5000
+	}
+	for _, pol := range allPols {
+		for hosts := 1; hosts <= 2; hosts++ {
+			for _, mc := range []int64{1, 2} {
+				for _, gate := range []bool{false, true} {
+					for v := 0; v < goneVariants; v++ {
+						if v == 4 && !gate {
+							continue
+						}
+						slots := hosts * int(mc)
+						w, pr := slots, slots+1 // the waiter and the prober
+						in := &c14In{Kind: "sched", Hosts: hosts, MC: mc, MF: r.Range(1, 2), FT: []int{-1, 0}[r.Intn(2)], Policy: pol,
+							Threads: slots + 2, Gate: gate, Fam: "gone"}
+						selN := 1
+						if gate {
+							selN = 2 // scan, then the policy (when it is consulted)
+						}
+						var st []c14Adv
+						// the holders take every slot one after the other (select, begin): each Select sees the pool as it is
+						for t := 0; t < slots; t++ {
+							for k := 0; k < selN+1; k++ {
+								st = append(st, c14Adv{T: t})
+							}
+						}
+						if v == 3 {
+							st = append(st, xs(w)) // gone before its first Select
+						}
+						// the waiter: every host is full -> nil (no policy call), keepRetrying: again
+						st = append(st, c14Adv{T: w}, c14Adv{T: w, Again: true})
+						if v == 0 {
+							st = append(st, xs(w)) // gone while it waits in the retry loop
+						}
+						// one holder is answered (which one: random), the slot is free again
+						st = append(st, c14Adv{T: r.Intn(slots), O: "s"})
+						if v == 4 {
+							st = append(st, c14Adv{T: w}, xs(w), c14Adv{T: w}) // gone at the entry of Policy.Select (single host: in the window)
+						} else {
+							for k := 0; k < selN; k++ {
+								st = append(st, c14Adv{T: w})
+							}
+						}
+						if v == 1 {
+							st = append(st, xs(w)) // gone in the window (or, gated with one host, already there)
+						}
+						st = append(st, c14Adv{T: w, Again: r.Bool()}) // acquireConn, into the transport
+						if v == 2 {
+							st = append(st, xs(w)) // gone during the forward
+						}
+						st = append(st, c14Adv{T: w, O: "c"})
+						// the prober finds the freed slot
+						for k := 0; k < selN+2; k++ {
+							st = append(st, c14Adv{T: pr, O: "s"})
+						}
+						in.Steps = st
+						out = append(out, in)
+					}
+				}
+			}
+		}
+	}
+	for i := 0; i < nGoneRandom; i++ {
+		in := &c14In{Kind: "sched", Hosts: r.Range(1, 3), Threads: r.Range(2, 5), MC: []int64{0, 1, 1, 2, 3}[r.Intn(5)], MF: r.Range(1, 3),
+			FT: []int{0, -1, -1}[r.Intn(3)], Policy: r.Pick(allPols), Gate: r.Chance(40), Fam: "gone"}
+		n := r.Range(8, 14*in.Threads)
+		for k := 0; k < n; k++ {
+			t := r.Intn(in.Threads)
+			if r.Chance(14) {
+				in.Steps = append(in.Steps, xs(t))
+				continue
+			}
+			if r.Chance(4) {
+				in.Steps = append(in.Steps, hv(r.Intn(in.Hosts), r.Chance(50)))
+				continue
+			}
+			in.Steps = append(in.Steps, c14Adv{T: t, O: r.Pick(outcomes), Again: r.Chance(55)})
+		}
+		out = append(out, in)
+	}
+	// 10b. the same with the real retry loop (try_duration, try_interval, real clock) and the real http.Transport
+	for i := 0; i < nStress; i++ {
+		out = append(out, &c14In{Kind: "livegone", Policy: allPols[i%len(allPols)], Seed: uint64(i)})
+	}
 	// 9. free-running stress on 16 Ps: thousands of requests, random outcomes
 	for i := 0; i < nStress; i++ {
 		in := &c14In{Kind: "stress2", Hosts: r.Range(1, 3), MC: []int64{0, 1, 2, 4}[r.Intn(4)], Threads: r.Range(16, 48), Reqs: r.Range(60, 150),
@@ -1567,7 +1825,7 @@ func c14Gen(r *Rand, tier string) []interface{} {
 func init() {
 	register(&Property{
 		ID: "C14", Imports: "V.Lib V.C14_Model", Judge: "judge",
-		Rule: "cases = real Proxy.ServeHTTP goroutines over a parsed proxy block, stepped by the driver through gated Select / barrier transports (every interleaving of 2 requests x outcomes x settings, random schedules of up to 5 requests on up to 3 hosts, timed schedules with real fail_timeout expiry); refused acquisitions for each of the 7 policies (one more request than slots inside the select/acquire window, plain and with the gated policy); failures arriving while the host is already down by max_fails / a store of Unhealthy / the verdict of the real HealthCheckWorker (untimed and timed down-window probes); health verdicts before, inside (policy c14gate blocks at the entry of Policy.Select) and after a running Select, through the real worker held at gated loopback health endpoints or by the driver's own store; max_fails/max_conns parsing; single requests through the real http.Transport (answered / dropped / client cancel); free-running stress (incl. thousands of requests on 16 Ps with random outcomes, coherent in-transport samples of Conns); non-trivial = a schedule in which two requests were simultaneously between Select and completion or a failure was recorded or a health verdict was delivered / accepted config / stress run that forwarded; distinct = distinct Coq case term",
+		Rule: "cases = real Proxy.ServeHTTP goroutines over a parsed proxy block, stepped by the driver through gated Select / barrier transports (every interleaving of 2 requests x outcomes x settings, random schedules of up to 5 requests on up to 3 hosts, timed schedules with real fail_timeout expiry); refused acquisitions for each of the 7 policies (one more request than slots inside the select/acquire window, plain and with the gated policy); the client going away at every point of a request's life (before its first Select, waiting in the retry loop for a slot, at the entry of Policy.Select, in the window, during the forward) for each of the 7 policies with max_conns 1 and 2, a prober finding the slot free afterwards, random schedules with disconnects, and the same through the real retry loop (try_duration/try_interval) and the real http.Transport; failures arriving while the host is already down by max_fails / a store of Unhealthy / the verdict of the real HealthCheckWorker (untimed and timed down-window probes); health verdicts before, inside (policy c14gate blocks at the entry of Policy.Select) and after a running Select, through the real worker held at gated loopback health endpoints or by the driver's own store; max_fails/max_conns parsing; single requests through the real http.Transport (answered / dropped / client cancel); free-running stress (incl. thousands of requests on 16 Ps with random outcomes, coherent in-transport samples of Conns); non-trivial = a schedule in which two requests were simultaneously between Select and completion or a failure was recorded or a health verdict was delivered / accepted config / stress run that forwarded; distinct = distinct Coq case term",
 		Gen:  c14Gen,
 		Decode: func(raw json.RawMessage) (interface{}, error) {
 			in := &c14In{}
